@@ -5,6 +5,9 @@ from lltdgen import *
 import vcommon as V
 
 EXPECT_KEYS = set()
+# True: the projection compared with the model is functionally determined by the specification (theorem), so a
+# disagreement is itself a failing input; False: only the property's own oracles decide that
+CORR_IS_SPEC = True
 COMMON_TB = [
     'Coq 8.16.1 kernel + vm_compute (no native_compute); hand-written executable Gallina model coq/model/*.v of the C control flow',
     'translator harness/probe.c + bin/genfacts.py (gcc layouts, #defines, tables dumped by executing init_automata_*) -> coq/gen/Extracted.v, regenerated each run',
